@@ -351,4 +351,18 @@ PROPS = {
                 "of the two runs differ, i.e. GC really reclaimed memory.",
         "assumptions": COMMON_ASSUMPTIONS + ["GcRestore hook events only serve as coverage evidence"],
     },
+    "C32": {
+        "variants": REL,
+        "log": True,
+        "py": "pymon.c32check",
+        "budget_s": (25, 1500),
+        "min_nontrivial": {"quick": 2000, "thorough": 20000},
+        "must_observe": ["sha256:ok", "keccak256:ok", "coinid:ok", "coinid:reject", "g1_multiply:ok", "g2_add:ok", "g1_negate:reject", "g2_negate:ok", "pubkey_for_exp:ok", "bls_verify:ok", "bls_verify:verify-fail",
+                         "bls_pairing_identity:ok", "secp256k1_verify:ok", "secp256k1_verify:verify-fail", "secp256r1_verify:ok", "openssl_cross_checks", "g1_map_output_is_subgroup_point", "g2_map_default_dst_checked"],
+        "rule": "Logged direct calls of the 18 cryptographic operators on structured argument lists: valid points, corrupted points (x>=p, off-curve, outside the subgroup, wrong/uncompressed/infinity flags, wrong lengths), scalars around 0, +-r and up to KBs, messages/DSTs of all sizes, "
+                "valid ECDSA triples (signed in the harness) with bit flips, truncations, zero signatures, high-S; valid AUG-scheme signatures constructed through the operators and wrong-message variants; RELAXED_BLS on/off. Oracles (pymon/cryptoref, self-validated): hashlib SHA-256, "
+                "pure-python Keccak-256, BLS12-381 group law / ZCash encoding / subgroup checks / ate pairing, ECDSA over both curves cross-checked with the system OpenSSL. Policy pinned: infinity points are valid keys/signatures (chia-bls), secp256k1 requires low-S, secp256r1 does not. "
+                "g1_map/g2_map are only partially covered (output is an r-torsion point, default DST equality, and the pairing relation that ties g2_map to bls_verify). Non-trivial: every modelled call (distinct op/arguments).",
+        "assumptions": COMMON_ASSUMPTIONS + ["hash-to-curve (SSWU + isogeny) is not independently re-implemented; bls_verify is checked with the operator's own g2_map(pk||msg) points"],
+    },
 }
